@@ -40,8 +40,42 @@ def where(func):
     return "%s:%d" % (os.path.relpath(code.co_filename, core.REPO), code.co_firstlineno)
 
 
+def live_template(cls):
+    """instance attributes of a live object of a toolkit class, built by the real constructor with the sockets stubbed"""
+    import io
+    from contracts.py.native import native_trx, patch_sockets
+    patch_sockets()
+    name = cls.__name__
+    mod = cls.__module__
+    if mod in ("fake_trx", "transceiver") and name in ("FakeTRX", "Transceiver"):
+        obj = native_trx()
+        if name == "Transceiver" and type(obj) is not cls:
+            return dict(vars(obj))
+        return dict(vars(obj))
+    if name in ("DATAInterface", "CTRLInterfaceTRX", "CTRLInterface", "UDPLink"):
+        t = native_trx()
+        for o in (t.data_if, t.ctrl_if, getattr(t, "clck_if", None)):
+            if o is not None and isinstance(o, cls):
+                return dict(vars(o))
+        return None
+    if name == "CLCKGen":
+        return dict(vars(cls([])))
+    if name in ("BurstForwarder", "TRXList"):
+        return dict(vars(cls([]))) if name == "BurstForwarder" else dict(vars(cls()))
+    if name == "DATADumpFile":
+        return dict(vars(cls(io.BytesIO())))
+    if name == "HoppingParams":
+        return dict(vars(cls(0, 0, [(1, 2)])))
+    try:
+        return dict(vars(cls()))
+    except Exception:
+        return None
+
+
 def new_engine():
-    return Engine(models)
+    E = Engine(models)
+    E.template_factory = live_template
+    return E
 
 
 def run_paths(E, setup, invoke):
@@ -106,3 +140,34 @@ def par_cases(run, E, cases, fn):
         E.inlined.update(inl)
         E.used_models.update(used)
         E.stats["paths"] += npaths
+
+
+def exc_note(exc):
+    """human-readable description of a symbolic path's exception (for the obligation's note / the replay file)"""
+    try:
+        args = getattr(exc, "args", ()) or ()
+        return "%s(%s)%s" % (exc.cls.__name__, ", ".join(str(a)[:80] for a in args), " [implicit: %s]" % exc.implicit if getattr(exc, "implicit", None) else "")
+    except Exception:
+        return str(exc)[:200]
+
+
+def sect(run, fn, *a, **k):
+    """Run one section of a property driver.  When the section's contracts cannot be bound to the current code (a construct outside the
+    engine, a loop contract whose roles cannot be resolved, a harness-side exception), the section is recorded as out of reach - the
+    bounded native oracle stands in for this run - instead of aborting the whole check.  Its partial obligations are dropped."""
+    n0 = len(run.obls)
+    try:
+        return fn(*a, **k)
+    except core.WallClock:
+        raise
+    except Unsupported as e:
+        reason = "construct outside the engine: %s" % (e,)
+    except (KeyboardInterrupt, SystemExit):
+        raise
+    except Exception as e:
+        import traceback
+        tb = traceback.extract_tb(e.__traceback__)
+        reason = "contract could not be bound to the code: %s: %s (%s)" % (type(e).__name__, str(e)[:200], "%s:%d" % (os.path.basename(tb[-1].filename), tb[-1].lineno) if tb else "")
+    del run.obls[n0:]
+    run.out_of_reach.append({"section": getattr(fn, "__name__", str(fn)), "reason": reason[:400]})
+    return None
